@@ -104,12 +104,12 @@ class SocketServer_Multiplex(object):
             if config.COMMTIMEOUT:
                 csock.settimeout(config.COMMTIMEOUT)
         except (socket.error, OSError) as x:
-            err = getattr(x, "errno", x.args[0])
+            err = getattr(x, "errno", None)
             if err in socketutil.ERRNO_BADF or err in socketutil.ERRNO_ENOTSOCK:
                 # our server socket got destroyed
                 raise errors.ConnectionClosedError("server socket closed")
             # socket errors may not lead to a server abort, so we log it and continue
-            err = getattr(x, "errno", x.args[0])
+            err = getattr(x, "errno", None)
             log.warning("accept() failed '%s' with errno=%d, shouldn't happen", x, err)
             return None
         try:
